@@ -319,6 +319,60 @@ def joint_reductions(ctx, label, smp, base, extras, tm, fail, post=None, gate_ma
     return True
 
 
+def joint_integrals(ctx, label, smp, base, extras, f, per_slice, fail, max_subsets=3):
+    """`per_slice` = brute-force value of  sum_{base} exp(smp) * f  per value of `extras` (= mass x f at the point).
+    For subsets X of the particle / batch inputs (the empty one included), Integrate(smp, f, base | X) in ONE call,
+    and Integrate(smp, f, base).reduce(add, X) in two steps, must both equal  sum_X per_slice  (each slice's f is
+    weighted by that slice's mass BEFORE the sum over the slices)."""
+    names = [n for n, _ in extras]
+    present = [n for n in names if n in smp.inputs or n in f.inputs]
+    subsets = [X for m in range(1, len(present) + 1) for X in itertools.combinations(present, m)]
+    if len(subsets) > max_subsets:
+        keep = [tuple(present)] + [(n,) for n in present[:1]]
+        rest = [X for X in subsets if X not in keep]
+        ctx.rng.shuffle(rest)
+        subsets = (keep + rest)[:max_subsets]
+    try:
+        with np.errstate(all="ignore"):
+            r_base = Integrate(smp, f, frozenset(base))
+    except DECLINE + (KeyError,) as e:
+        ctx.count(f"jointint:{label}:base-declined:{type(e).__name__}")
+        return True
+    for X in [()] + subsets:
+        rest_order = [(n, k) for n, k in extras if n not in X]
+        axes = tuple(i for i, n in enumerate(names) if n in X)
+        brute = np.sum(per_slice, axis=axes) if axes else np.asarray(per_slice)
+        for how in ("one-call", "two-steps"):
+            try:
+                with np.errstate(all="ignore"):
+                    if how == "one-call":
+                        r = Integrate(smp, f, frozenset(base) | frozenset(X)) if X else r_base
+                    else:
+                        if not X:
+                            continue
+                        r = r_base.reduce(ops.add, frozenset(X) & frozenset(r_base.inputs))
+                        # inputs in X the first step no longer has are summed as a multiplicity
+                        mult = int(np.prod([k for n, k in extras if n in X and n not in r_base.inputs]))
+                        if mult != 1:
+                            r = r * mult
+                    t = table(r, rest_order)
+            except DECLINE + (KeyError,) as e:
+                ctx.count(f"jointint:{label}:{how}-declined:{type(e).__name__}")
+                continue
+            if t is None:
+                ctx.count(f"jointint:{label}:{how}-lazy")
+                continue
+            if t.shape == np.shape(brute) and np.allclose(t, brute, rtol=1e-7, atol=1e-9):
+                ctx.count(f"jointint:{label}:{how}-ok")
+                continue
+            fail("C14.joint-integrate-" + how,
+                 f"{label}: Integrate(sample, f, {sorted(base)} + {list(X)}) ({how}) differs from the brute force "
+                 f"sum over {list(X)} of  mass(slice) * f(slice, point(slice))",
+                 str(np.asarray(brute).tolist()), str(t.tolist()))
+            return False
+    return True
+
+
 def delta_joint_case(ctx):
     """Direct constructions: a Delta binding 2-3 integer variables whose points share batch inputs (a particle
     input `p`, maybe `b`), unit mass; reduced over all its names AND a subset of the batch inputs in one call."""
@@ -377,6 +431,19 @@ def delta_joint_case(ctx):
     with np.errstate(all="ignore"):
         df = d + f
     if not joint_reductions(ctx, "delta+f", df, names, extras, tm_f, fail, gate_max=True, max_subsets=4):
+        return
+    # a hand-built sample: Delta with batched points + a table of log masses; integrand depends on names and batch
+    logw = np.round(np.array([rng.gauss(0, 1) for _ in range(int(np.prod([bsz[b] for b in bnames])))]) * 4
+                    ).reshape([bsz[b] for b in bnames]) / 4
+    measure = d + Tensor(logw, OrderedDict((b, Bint[bsz[b]]) for b in bnames))
+    fI = Tensor(np.where(np.isfinite(fdata), fdata, 0.0) + lin, OrderedDict((n, Bint[v]) for n, v in f_inputs))
+    per = np.empty(logw.shape)
+    for idx in itertools.product(*[range(bsz[b]) for b in bnames]):
+        env = dict(zip(bnames, idx))
+        for n in names:
+            env[n] = int(pdata[n][tuple(env[b] for b in pb[n])])
+        per[idx] = math.exp(logw[idx]) * float(np.asarray(fI.data)[tuple(env[n] for n, _ in f_inputs)])
+    if not joint_integrals(ctx, "delta+w", measure, names, extras, fI, per, fail, max_subsets=3):
         return
     ctx.case(sample={kk: wit[kk] for kk in ("names", "sizes", "bsz", "pb", "build")},
              nontrivial_key=("delta-joint", str(wit)))
@@ -802,8 +869,19 @@ def check_sample_case(ctx, c, use_driver=True, gate_model=False):
             return
         if d["order"] and not joint_reductions(
                 ctx, "tensor", s, c["sampled"], d["order"], t1,
-                lambda nm, prob, exp_, got_: bad(nm, prob, expected=exp_, got=got_), gate_max=True, max_subsets=3):
+                lambda nm, prob, exp_, got_: bad(nm, prob, expected=exp_, got=got_), gate_max=True, max_subsets=2):
             return
+        if d["order"] and rng.random() < (0.3 if ctx.tier == "quick" else 0.5):
+            onames = [n for n, _ in d["order"]]
+            dep = [n for n in onames if rng.random() < 0.7] or onames[:1]
+            fin = [(n, k) for n, k in d["order"] if n in dep] + [(n, size[n]) for n in d["sampled"]]
+            F = np.array([rng.choice(DYAD) for _ in range(int(np.prod([k for _, k in fin])))]).reshape([k for _, k in fin])
+            fT = Tensor(F, OrderedDict((n, Bint[k]) for n, k in fin))
+            Fb = F.reshape([k if n in dep else 1 for n, k in d["order"]] + list(d["esz"]))
+            per = (lin * Fb).reshape(lin.shape[:len(onames)] + (-1,)).sum(-1)
+            if not joint_integrals(ctx, "tensor", s, c["sampled"], d["order"], fT, per,
+                                   lambda nm, prob, exp_, got_: bad(nm, prob, expected=exp_, got=got_)):
+                return
     else:
         ctx.count("sample:reduce-lazy")
     # 4. deterministic function of the random state
@@ -1609,7 +1687,7 @@ def delta_streams(ctx, use_driver=True):
         delta_reduce_case(ctx, use_driver=use_driver)
     for _ in range(110 if ctx.tier == "quick" else 1500):
         delta_multi_case(ctx, use_driver=use_driver)
-    for _ in range(80 if ctx.tier == "quick" else 1000):
+    for _ in range(60 if ctx.tier == "quick" else 1000):
         delta_joint_case(ctx)
 
 
@@ -1816,6 +1894,18 @@ def check_gauss_case(ctx, c):
                     ctx.fail("input", nm, witness=w, python=gpy, expected=exp_, got=got_)
                 if order and not joint_reductions(ctx, "gaussian", s0, c["sampled"], order, t1, gfail):
                     return
+                if order:
+                    v0, sh0 = next((n, sh) for n, sh in real if n in c["sampled"])
+                    kk = int(np.prod(sh0)) if sh0 else 1
+                    ishape_ = tuple(k for _, k in ints)
+                    coef = np.round(rs.standard_normal(ishape_ + sh0) * 2) / 2
+                    cT = Tensor(coef, OrderedDict((n, Bint[k]) for n, k in ints))
+                    xv = Variable(v0, Reals[sh0] if sh0 else Real)
+                    fG = (xv * cT).sum() if sh0 else xv * cT
+                    blk = x0[..., a_idx.index(offs[v0][0]):a_idx.index(offs[v0][0]) + kk]
+                    per = np.exp(t1) * (blk * coef.reshape(ishape_ + (kk,))).sum(-1)
+                    if not joint_integrals(ctx, "gaussian", s0, c["sampled"], order, fG, per, gfail):
+                        return
         except DECLINE as e:
             ctx.count(f"gauss:reduce-declined:{type(e).__name__}")
     ctx.case(sample=wit, nontrivial_key=("gauss", str(wit)) if da >= 2 or b_idx else None)
@@ -2005,6 +2095,27 @@ def check_mixture_case(ctx, c):
         ctx.fail("input", nm, witness=w, python=py, expected=exp_, got=got_)
     if order and not joint_reductions(ctx, "mixture", smp, red, order, tm, mfail, max_subsets=4):
         return
+    if order and set(reals) <= set(S):
+        try:
+            ptsm = extract_samples(smp)
+            s_int = [n for n in isize if n in S]
+            tabs_i = {n: table(ptsm[n], order) for n in s_int if n in ptsm}
+            if len(tabs_i) == len(s_int) and all(v is not None for v in tabs_i.values()):
+                onames = [n for n, _ in order]
+                dep = [n for n in onames if rs.random_sample() < 0.7] or onames[:1]
+                fin = [(n, k) for n, k in order if n in dep] + [(n, isize[n]) for n in s_int]
+                F = np.round(rs.standard_normal([k for _, k in fin]) * 2) / 2
+                fM = Tensor(F, OrderedDict((n, Bint[k]) for n, k in fin)) if fin else Number(2.0)
+                per = np.zeros(tm.shape)
+                for idx in itertools.product(*[range(k) for _, k in order]):
+                    env = dict(zip(onames, idx))
+                    env.update({n: int(tabs_i[n][idx]) for n in s_int})
+                    fv_ = float(F[tuple(env[n] for n, _ in fin)]) if fin else 2.0
+                    per[idx] = math.exp(tm[idx]) * fv_ if np.isfinite(tm[idx]) else 0.0
+                if not joint_integrals(ctx, "mixture", smp, red, order, fM, per, mfail, max_subsets=2):
+                    return
+        except DECLINE + (ValueError,) as e:
+            ctx.count(f"mixture:jointint-declined:{type(e).__name__}")
     # support of the sampled discrete variables that the Tensor sees
     try:
         pts = extract_samples(smp)
@@ -2587,7 +2698,7 @@ def check_pre_case(ctx, c):
 
 
 def pre_streams(ctx):
-    n = 90 if ctx.tier == "quick" else 1200
+    n = 70 if ctx.tier == "quick" else 1200
     for _ in range(n):
         check_pre_case(ctx, gen_pre_case(ctx.rng))
 
@@ -2651,7 +2762,10 @@ def correspond(ctx):
         "sample-producing stream also reduces the sample over its sampled variables AND subsets of its particle / batch "
         "inputs in ONE call (logaddexp: masses add up; max) against brute force over the per-slice masses; direct Deltas "
         "binding 2-3 names whose points share a particle input: n unit Deltas have mass n, (Delta+f) gives sum of f at "
-        "the points.  Non-trivial = a row with >= 2 positive cells (sample), domain size >= 2 "
+        "the points.  Joint integrals: Integrate(sample, f, sampled + X) for subsets X of the particle / batch inputs "
+        "(empty included) with integrands that depend on the sampled variable AND on the batch inputs (Tensor tables; "
+        "x * Tensor(i) for Gaussians), one call vs two steps vs brute force sum_X mass(slice) f(slice, point(slice)), on "
+        "Tensor / Gaussian / mixture samples and hand-built Delta + weight-table measures.  Non-trivial = a row with >= 2 positive cells (sample), domain size >= 2 "
         "(Delta), >= 2 sampled dimensions or a conditioning block (Gaussian); distinct by full case content.")
     radix_box(ctx)
     sample_streams(ctx)
